@@ -927,14 +927,22 @@ class TestResult(unittest.TestResult):
     def _restoreStdStreams(self):
         """Restore the buffered standard streams and return any contents."""
         if self.options.buffer:
-            stdout = sys.stdout.getvalue()
-            stderr = sys.stderr.getvalue()
-            sys.stdout = self._original_stdout
-            sys.stderr = self._original_stderr
-            self._stdout_buffer.seek(0)
-            self._stdout_buffer.truncate(0)
-            self._stderr_buffer.seek(0)
-            self._stderr_buffer.truncate(0)
+            stdout = stderr = None
+            # A test may produce several result events (e.g. an error in
+            # the test body and another one in tearDown): only the first
+            # one finds the buffers installed.
+            if (self._stdout_buffer is not None and
+                    sys.stdout is self._stdout_buffer):
+                stdout = sys.stdout.getvalue()
+                sys.stdout = self._original_stdout
+                self._stdout_buffer.seek(0)
+                self._stdout_buffer.truncate(0)
+            if (self._stderr_buffer is not None and
+                    sys.stderr is self._stderr_buffer):
+                stderr = sys.stderr.getvalue()
+                sys.stderr = self._original_stderr
+                self._stderr_buffer.seek(0)
+                self._stderr_buffer.truncate(0)
             return stdout, stderr
         else:
             return None, None
@@ -1059,6 +1067,9 @@ class TestResult(unittest.TestResult):
             self.stop()
 
     def stopTest(self, test):
+        # No result event was reported (e.g. the test was interrupted):
+        # do not leave the buffers installed.
+        self._restoreStdStreams()
         self.testTearDown()
         # Without clearing, cyclic garbage referenced by the test
         # would be reported in the following test.
